@@ -48,6 +48,10 @@ type Plan struct {
 	Greeting   bool   `json:"greeting,omitempty"`     // RDY when the host connects (spec 5.0)
 	InitState  string `json:"init_state,omitempty"`   // DISC (default) | OFFLINE
 	EchoDisc   bool   `json:"echo_disc,omitempty"`    // echo DISCONNECT / ABORT / ARQCALL back
+	// EarlyData (TCP): the model does not hold back ARQ frames until the
+	// CONNECTED line has reached the host; with a faster data socket they
+	// overtake it.
+	EarlyData bool `json:"early_data,omitempty"`
 	// CrcFaultData / CrcFaultCmd (serial): indices of good host data frames /
 	// command frames, each kind counted separately in arrival order
 	// (retransmissions count), that the model answers with CRCFAULT instead of
